@@ -228,9 +228,42 @@ func (c *Ctx) mentionsContextType(f *ssa.Function) bool {
 			if *op != nil && strings.Contains((*op).Type().String(), "context.Context") {
 				hit = true
 			}
+			if *op != nil {
+				if g, isG := (*op).(*ssa.Global); isG && c.isContextTypeGlobal(g) {
+					hit = true
+				}
+			}
 		}
 	})
 	return hit
+}
+
+// isContextTypeGlobal: a package-level variable that the package initialiser sets, once, to
+// reflect.TypeOf((*context.Context)(nil)).Elem() and that is written nowhere else.
+func (c *Ctx) isContextTypeGlobal(g *ssa.Global) bool {
+	if g == nil || g.Pkg != c.P.Pkg {
+		return false
+	}
+	good, n := true, 0
+	for _, f := range c.P.ModFuncs {
+		instrs(f, func(b *ssa.BasicBlock, i int, in ssa.Instruction) {
+			st, isSt := in.(*ssa.Store)
+			if !isSt || st.Addr != ssa.Value(g) {
+				return
+			}
+			n++
+			el, isC := st.Val.(*ssa.Call)
+			if !isInitFn(f) || !isC || !el.Call.IsInvoke() || el.Call.Method.Name() != "Elem" {
+				good = false
+				return
+			}
+			tc, isT := el.Call.Value.(*ssa.Call)
+			if !isT || callName(tc) != "reflect.TypeOf" || !strings.Contains(stripIface(tc.Call.Args[0]).Type().String(), "context.Context") {
+				good = false
+			}
+		})
+	}
+	return good && n == 1
 }
 
 func c11SingleCall(c *Ctx, br *callBridge) {
@@ -672,6 +705,14 @@ func c11Context(c *Ctx, br *callBridge) {
 		if bo.Op == token.EQL {
 			l, okl := bo.X.(*ssa.Call)
 			rr, okr := bo.Y.(*ssa.Call)
+			if u, isU := bo.Y.(*ssa.UnOp); okl && isU && u.Op == token.MUL && l.Call.IsInvoke() && l.Call.Method.Name() == "In" {
+				// ... with the type held in a package-level variable computed once
+				if g, isG := u.X.(*ssa.Global); isG && c.isContextTypeGlobal(g) {
+					if n, ok := constIntArg(l.Call.Args[0]); ok && n == 0 {
+						cmpOK = true
+					}
+				}
+			}
 			if okl && okr && l.Call.IsInvoke() && l.Call.Method.Name() == "In" && rr.Call.IsInvoke() && rr.Call.Method.Name() == "Elem" {
 				if n, ok := constIntArg(l.Call.Args[0]); ok && n == 0 {
 					if tcall, ok := rr.Call.Value.(*ssa.Call); ok && callName(tcall) == "reflect.TypeOf" && strings.Contains(stripIface(tcall.Call.Args[0]).Type().String(), "context.Context") {
